@@ -1,12 +1,55 @@
 (** C08 - Tax scales compute their mathematical definition for every base.
-    Only statements here; proofs are in proofs/Scale*Proofs.v. *)
+    Only statements here; proofs are in proofs/Scale*Proofs.v.
+
+    Vocabulary (defined in proofs/ScaleProofs.v, section 4 "Specifications"):
+      overlap lo hi b     = max(0, min(b, hi) - lo)    length of [lo, hi) ∩ (-inf, b); hi may be +inf
+      upper_end rest      = threshold of the next bracket, +inf after the last one
+      marginal_tax b s    = sum over the brackets (t_i, r_i) of s of r_i * overlap t_i t_i+1 b
+      shift_thresholds m s = the scale with every threshold multiplied by m
+      seq s s'            = same brackets up to [==] on the rationals
+      sorted s            = thresholds strictly increasing
+      lookup t calls      = sum of the rates of the calls whose threshold is == t *)
 From Coq Require Import ZArith QArith Qminmax List Bool Permutation.
 From Verif Require Import Base Scale ScaleProofs.
 Import ListNotations.
 Open Scope Q_scope.
+
+(** ** a vector of bases gives the values of each base alone *)
 
 Theorem vector_is_pointwise_marginal_rate : forall eps factor round s bases,
   calc_marginal eps factor round s bases
   = concat (map (fun b => calc_marginal eps factor round s [b]) bases).
 Proof. exact calc_marginal_pointwise. Qed.
 Print Assumptions vector_is_pointwise_marginal_rate.
+
+(** ** marginal-rate scale: sum over brackets of rate times the part of the base inside the
+    bracket; thresholds as the code shifts them, t' = t * (factor + eps).  Holds for every
+    scale, sorted or not ([overlap] of an empty interval is 0). *)
+
+Theorem marginal_rate_def : forall eps factor s bases,
+  Forall2 Qeq (calc_marginal eps factor None s bases)
+              (map (fun b => marginal_tax b (shift_thresholds (factor + eps) s)) bases).
+Proof. exact calc_marginal_def. Qed.
+Print Assumptions marginal_rate_def.
+
+(** the statement of the property: no shift, factor 1 *)
+Theorem marginal_rate_def_clean : forall s bases,
+  Forall2 Qeq (calc_marginal 0 1 None s bases) (map (fun b => marginal_tax b s) bases).
+Proof. exact calc_marginal_def_clean. Qed.
+Print Assumptions marginal_rate_def_clean.
+
+(** ** results do not depend on the order in which brackets were added *)
+
+Theorem insertion_order_irrelevant : forall calls1 calls2,
+  Permutation calls1 calls2 -> seq (build calls1) (build calls2).
+Proof. exact build_perm. Qed.
+Print Assumptions insertion_order_irrelevant.
+
+(** canonical form: strictly increasing thresholds, exactly the thresholds of the calls,
+    each with the sum of the rates given for it *)
+Theorem build_canonical : forall calls,
+  sorted (build calls)
+  /\ (forall t, mem_thr t (build calls) = mem_thr t calls)
+  /\ (forall t r, In (t, r) (build calls) -> r == lookup t calls).
+Proof. exact build_canonical_form. Qed.
+Print Assumptions build_canonical.
